@@ -306,32 +306,6 @@ let hdr_model dbg be (hasz : int) hb (hbytes : Byte0.byte list) (ec : cfg) esec 
          Buffer.add_string b (" " ^ String.concat ":" (String.split_on_char ' ' s))) addrs);
     Buffer.contents b)
 
-(* which known panic class (debug build) a header case falls into: "ok" | "mul" | "s1" | "other" *)
-let hdr_class be hasz hb hbytes (ec : cfg) esec addrs : string =
-  let hbs = sbases_of hb in
-  try
-    match M.hdr_parse true be hbs (n_of_int hasz) hbytes with
-    | Res.Panic -> "other"
-    | Res.Ok h ->
-      (match M.hdr_table h with
-       | None -> "ok"
-       | Some h ->
-         (match M.tbl_all true hbs h with Res.Panic -> raise Exit | _ -> ());
-         let sc = scfg_of ec in
-         let cls = ref "ok" in
-         (try List.iter (fun a ->
-           let a = n_of_z a in
-           (match M.hdr_lookup true hbs h a with
-            | Res.Panic -> cls := "mul"; raise Exit
-            | Res.Ok p -> (match M.pointer_to_offset true h p with Res.Panic -> cls := "s1"; raise Exit | _ -> ())
-            | _ -> ());
-           (match M.hdr_fde_for_address true hbs h sc esec a with
-            | Res.Panic -> cls := "other"; raise Exit | _ -> ())) addrs
-          with Exit -> ());
-         !cls)
-    | _ -> "ok"
-  with Exit -> "other"
-
 type hcase = { hbe : bool; hasz : int; hb : Z.t option * Z.t option * Z.t option; hbytes : int list;
                ec : cfg; ebytes : int list; wf : bool; addrs : Z.t list }
 
@@ -479,7 +453,7 @@ let perturb_hdr r (h : hcase) : hcase =
   | 4 -> { h with hasz = pick r [| 1; 2; 4; 8 |] }
   | _ -> { h with addrs = List.map (fun _ -> boundary_z64 r) h.addrs }
 
-(* explicit families that reach the two unchecked u64 operations of EhHdrTable *)
+(* explicit families that reach the two (formerly unchecked) u64 operations of EhHdrTable *)
 let witness_hdrs () : hcase list =
   let ec = { eh = true; be = false; asz = 8; bsec = None; btext = None; bdata = None } in
   let le n v = List.init n (fun i -> Z.to_int (Z.logand (Z.shift_right v (8 * i)) (Z.of_int 255))) in
@@ -674,12 +648,10 @@ let () =
   register "c05.lraw" ~doc:"fde_for_address on mutated sections (error propagation order, no panic)" (look_gen "c05.lraw" ~raw:true);
   register "c05.hdr" ~doc:"EhFrameHdr::parse, table iteration, lookup, pointer_to_offset, EhHdrTable::fde_for_address on well-formed headers (sdata4/udata4/sdata8/udata8/sdata2/udata2 rows; absolute, pcrel, datarel, textrel; lengths 1,2,3..40) over disjoint FDEs; oracle: all lookup paths = exhaustive scan" (fun ~seed ~n emit ->
     hdr_cases ~seed ~n ~raw:false (fun h -> both emit (hcase_line "c05.hdr" h) (fun dbg -> hcase_model dbg h)));
-  register "c05.hraw" ~doc:"the same on unsorted/damaged/random headers and extreme fde_count values (model mirrors the debug-build overflow panics)" (fun ~seed ~n emit ->
+  register "c05.hraw" ~doc:"the same on unsorted/damaged/random headers and extreme fde_count values (overflowing (len/2)*row_size -> UnexpectedEof, table address below eh_frame_ptr -> OffsetOutOfBounds)" (fun ~seed ~n emit ->
     hdr_cases ~seed ~n ~raw:true (fun h -> both emit (hcase_line "c05.hraw" h) (fun dbg -> hcase_model dbg h)));
-  register "c05.nopanic" ~doc:"oracle: no input makes the header/table/lookup code panic; cases are tagged with the known overflow class they fall in (mul = (len/2)*row_size, s1 = ptr - eh_frame_ptr)" (fun ~seed ~n emit ->
+  register "c05.nopanic" ~doc:"oracle (theorems hdr_fde_for_address_total, table_iter_total): with a valid address size no header, table, section or address makes parse/iterate/lookup/fde_for_address panic, in either build mode; includes the extreme fde_count and below-section-pointer families" (fun ~seed ~n emit ->
     hdr_cases ~seed:(seed + 77) ~n ~raw:true (fun h ->
-      if List.mem h.hasz [1; 2; 4; 8] && List.mem h.ec.asz [1; 2; 4; 8] then begin
-        let cls = hdr_class h.hbe h.hasz h.hb (bytes_of_ints h.hbytes) h.ec (bytes_of_ints h.ebytes) h.addrs in
-        emit ("c05.nopanic " ^ cls ^ " " ^ hcase_line "c05.hraw" h) "nopanic" "nopanic"
-      end))
+      if List.mem h.hasz [1; 2; 4; 8] && List.mem h.ec.asz [1; 2; 4; 8] then
+        emit ("c05.nopanic any " ^ hcase_line "c05.hraw" h) "nopanic" "nopanic"))
 let init () = ()
